@@ -721,6 +721,10 @@ def load_sim_modules(repo=None):
     spec.loader.exec_module(simqueue)
     simqueue.threading = simthreading
     simqueue.time = lambda: S().clock
+    # the copy raises the very exception classes of the real module (queue.py defines Full itself): code outside the
+    # simulated files that catches queue.Full must catch what a simulated queue raises
+    simqueue.Full = _q.Full
+    simqueue.Empty = _q.Empty
     _instrument_queue(simqueue)
     spec = importlib.util.spec_from_file_location(
         "verif_sim_threadpool", repo + "/jsonrpclib/threadpool.py")
